@@ -95,6 +95,11 @@ pub struct HistCfg {
     pub jitter_point: String,
     #[serde(default)]
     pub jitter_us: u64,
+    /// capacity in entries of the block cache and of the table cache (0 = raindb's defaults,
+    /// which never evict in runs of this size): with 2..8 entries tables are evicted and reopened
+    /// and blocks evicted and re-read all the time (RainCache's EvictTable / EvictBlock)
+    #[serde(default)]
+    pub cache_cap: usize,
 }
 
 #[derive(Clone, Debug, Serialize, Deserialize)]
@@ -797,6 +802,7 @@ pub fn run_hist(
         std::sync::atomic::Ordering::SeqCst,
     );
     *crate::common::JITTER_POINT.lock() = cfg.jitter_point.clone();
+    crate::common::set_cache_cap(cfg.cache_cap);
     install_observer(ROOT, sink, true);
     take_panics();
     let first_event = sink.len();
